@@ -4,20 +4,63 @@ import FatVerif.Props.C18
 /-!
 # C18.4 — the stamping rules, as theorems about the model's programs
 
-All time values come from the configured clock: the primitive ops `Op.now` / `Op.today` return `d.clock` and (in tick
-mode) advance it by `clockStep`; `tickOnce d` is the device after exactly one such read, `SameClock d d'` says that none
-happened (`Proofs/StampingClock.lean`).  `clockDateTime`/`clockDate` (Model/File.lean) turn the counter into the
-`DateTime`/`Date` the harness' `TimeProvider` returns; they always lie in the ranges `Date::new`/`Time::new` accept.
+All time values come from the configured clock: the primitive ops `Op.now` / `Op.today` return the device's clock
+counter `d.clock` and change nothing.  The counter advances once per API operation, at its start (`Dev.resetOp`,
+`resetOp_clock`), never inside one (`NoClockChange`): whatever an operation does, every stamp it writes is derived from
+the one value `d.clock` it started with, however many `TimeProvider` calls it makes.  `clockDateTime`/`clockDate`
+(Model/File.lean) turn the counter into the `DateTime`/`Date` the harness' `TimeProvider` returns; they always lie in
+the ranges `Date::new`/`Time::new` accept.
 -/
 namespace FatVerif.C18
 
-/-! ## (1) creation stamps all three from ONE clock read -/
+/-! ## (0) one clock value per API operation -/
 
-/-- **`createSfnEntry_stamps`** — on any device `create_sfn_entry` succeeds, the device afterwards is the one after
-    exactly one clock read (nothing else changed), and the record has created = the clock value at 10 ms, accessed =
-    its date, modified = the clock value at 2 s — all three from that single value `d.clock`. -/
+/-- **`NoClockChange`** — no program changes the clock: for EVERY program `p` (device calls, clock reads, error
+    handlers, destructors), every device and every outcome, the clock counter and mode after the run are those before.
+    Hence all `now`/`today` reads inside one API operation return the same value. -/
+theorem NoClockChange {α : Type} (p : Prog α) (d : Dev) {r : Except Err α} {d' : Dev} (hr : run p d = (r, d')) :
+    d'.clock = d.clock ∧ d'.tick = d.tick :=
+  run_sameClock hr
+
+/-- **`resetOp_clock`** — the only place the clock moves: the start of an API operation advances it by one step in
+    tick mode and not at all with the constant clock. -/
+theorem resetOp_clock (d : Dev) (failAt : Option Nat) :
+    (d.resetOp failAt).clock = (if d.tick then d.clock + Dev.clockStep else d.clock) ∧
+    (d.resetOp failAt).tick = d.tick :=
+  FatVerif.resetOp_clock d failAt
+
+/-- a clock read is a pure observation of the operation's clock value -/
+theorem clock_read (d : Dev) : run Prog.now d = (.ok d.clock, d) ∧ run Prog.today d = (.ok d.clock, d) :=
+  ⟨run_now d, run_today d⟩
+
+/-- what the per-operation clock buys: a record created ANYWHERE inside an operation — after any prefix program `p`,
+    whatever `p` did and however often it read the clock — is stamped with the value the operation started with -/
+theorem createSfnEntry_after {β : Type} (p : Prog β) (sn : List Nat) (attrs : Nat) (first : Option Nat) (d : Dev)
+    {r : DirFileEntryData} {d' : Dev}
+    (hr : run (Prog.bind p fun _ => createSfnEntry sn attrs first) d = (.ok r, d')) :
+    r.created = ⟨clockDate d.clock, (clockTime d.clock).round10⟩ ∧ r.accessed = clockDate d.clock ∧
+    r.modified = ⟨clockDate d.clock, (clockTime d.clock).round2s⟩ := by
+  rcases run_bind_cases hr with ⟨b, d1, h1, h2⟩ | ⟨e, _, he⟩
+  · have hc := (run_sameClock h1).1
+    rw [createSfnEntry_run] at h2
+    cases h2
+    rw [← hc]
+    exact ⟨DirFileEntryData.created_setCreated
+        ((DirFileEntryData.new sn attrs).setFirstCluster first d'.fs.fatType) (clockDateTime d'.clock)
+        (clockDate_inRange _) (clockTime_inRange _),
+      DirFileEntryData.accessed_setAccessed
+        (((DirFileEntryData.new sn attrs).setFirstCluster first d'.fs.fatType).setCreated (clockDateTime d'.clock))
+        (clockDate d'.clock) (clockDate_inRange _),
+      DirFileEntryData.modified_setModified _ (clockDateTime d'.clock) (clockDate_inRange _) (clockTime_inRange _)⟩
+  · cases he
+
+/-! ## (1) creation stamps all three from ONE clock value -/
+
+/-- **`createSfnEntry_stamps`** — on any device `create_sfn_entry` succeeds and leaves the device exactly as it was
+    (no device call, clock untouched); the record has created = the operation's clock value at 10 ms, accessed = its
+    date, modified = the clock value at 2 s — all three from the single value `d.clock`. -/
 theorem createSfnEntry_stamps (sn : List Nat) (attrs : Nat) (first : Option Nat) (d : Dev) :
-    ∃ r : DirFileEntryData, run (createSfnEntry sn attrs first) d = (.ok r, tickOnce d) ∧
+    ∃ r : DirFileEntryData, run (createSfnEntry sn attrs first) d = (.ok r, d) ∧
       r.created = ⟨clockDate d.clock, (clockTime d.clock).round10⟩ ∧
       r.accessed = clockDate d.clock ∧
       r.modified = ⟨clockDate d.clock, (clockTime d.clock).round2s⟩ ∧
@@ -30,7 +73,7 @@ theorem createSfnEntry_stamps (sn : List Nat) (attrs : Nat) (first : Option Nat)
       (clockDate d.clock) (clockDate_inRange _)
   · exact DirFileEntryData.modified_setModified _ (clockDateTime d.clock) (clockDate_inRange _) (clockTime_inRange _)
 
-/-- a ticking device whose clock reads 2020-02-02 12:34:57.789 -/
+/-- a device in tick mode whose clock reads 2020-02-02 12:34:57.789 during the current operation -/
 def tickDev : Dev := { C14ex.dev16 with tick := true, clock := 45297789 }
 
 example : clockDateTime tickDev.clock = ⟨⟨2020, 2, 2⟩, ⟨12, 34, 57, 789⟩⟩ := by decide
@@ -39,76 +82,78 @@ example :
     ((run (createSfnEntry (List.replicate 11 65) 0x20 none) tickDev).1.toOption.map fun r =>
         (r.created, r.accessed, r.modified)) =
       some (⟨⟨2020, 2, 2⟩, ⟨12, 34, 57, 780⟩⟩, ⟨2020, 2, 2⟩, ⟨⟨2020, 2, 2⟩, ⟨12, 34, 56, 0⟩⟩) ∧
-    (run (createSfnEntry (List.replicate 11 65) 0x20 none) tickDev).2.clock = 45297789 + 2010 := by
+    (run (createSfnEntry (List.replicate 11 65) 0x20 none) tickDev).2.clock = 45297789 ∧
+    (tickDev.resetOp none).clock = 45297789 + 2010 ∧ ((C14ex.dev16).resetOp none).clock = C14ex.dev16.clock := by
   decide +kernel
 
 /-! ## (2) a write that stores data stamps modified -/
 
-/-- **`write_stamps_modified`** — a successful `File::write` returning `n > 0` on a handle with a directory entry
-    reads the clock exactly once; the value read is the `d.clock` the call started with; afterwards the editor's
-    modified stamp reads back that value at 2 s resolution, and created, accessed and the entry position are as
-    before.  Returning 0 reads no clock and leaves every time field (and the position) of the editor as it was.
+/-- **`write_stamps_modified`** — a successful `File::write` never changes the clock; returning `n > 0` on a handle
+    with a directory entry it leaves the editor's modified stamp reading back the operation's clock value `d.clock` at
+    2 s resolution, and created, accessed and the entry position as before.  Returning 0 leaves every time field (and
+    the position) of the editor as it was.
     (The editor itself may still change on a 0-byte return: if a first cluster was allocated before a device write
     that stored nothing, `first_cluster` is already recorded — as in `file.rs`.) -/
 theorem write_stamps_modified (f : FileH) (buf : List Nat) (d : Dev) {n : Nat} {f' : FileH} {d' : Dev}
     (hr : run (f.write buf) d = (.ok (n, f'), d')) :
-    (n = 0 → SameClock d d' ∧ SameStamps f.entry f'.entry) ∧
+    (d'.clock = d.clock ∧ d'.tick = d.tick) ∧
+    (n = 0 → SameStamps f.entry f'.entry) ∧
     (0 < n → ∀ e, f.entry = some e →
-      d'.clock = (tickOnce d).clock ∧ d'.tick = d.tick ∧
       ∃ e', f'.entry = some e' ∧
         e'.data.modified = ⟨clockDate d.clock, (clockTime d.clock).round2s⟩ ∧
         e'.data.created = e.data.created ∧ e'.data.accessed = e.data.accessed ∧ e'.pos = e.pos) := by
   have h := write_stamps f buf d hr
-  exact ⟨h.1, fun hn => (h.2 hn).2⟩
+  exact ⟨h.1, h.2.1, fun hn => (h.2.2 hn).2⟩
 
-/-- the root-directory handle (no entry to stamp) never reads the clock -/
-theorem write_no_entry_no_clock (f : FileH) (buf : List Nat) (d : Dev) {n : Nat} {f' : FileH} {d' : Dev}
-    (hr : run (f.write buf) d = (.ok (n, f'), d')) (hf : f.entry = none) : f'.entry = none ∧ SameClock d d' := by
+/-- the root-directory handle has no entry to stamp, before or after -/
+theorem write_no_entry (f : FileH) (buf : List Nat) (d : Dev) {n : Nat} {f' : FileH} {d' : Dev}
+    (hr : run (f.write buf) d = (.ok (n, f'), d')) (hf : f.entry = none) : f'.entry = none := by
   have h := write_stamps f buf d hr
   rcases Nat.eq_zero_or_pos n with hn | hn
-  · obtain ⟨hc, hs⟩ := h.1 hn
+  · have hs := h.2.1 hn
     rw [hf] at hs
-    exact ⟨hs.none_inv, hc⟩
-  · exact (h.2 hn).1 hf
+    exact hs.none_inv
+  · exact (h.2.2 hn).1 hf
 
 /-- an empty buffer stores nothing: handle and clock exactly as before -/
 theorem write_empty (f : FileH) (d : Dev) : run (f.write []) d = (.ok (0, f), d) := by
   simp [FileH.write, bind, pure, Prog.getFs, run, stepOp]
 
-/-- a successful 3-byte write on the ticking device: 3 bytes stored, modified := 12:34:56 (2 s), one tick -/
+/-- a successful 3-byte write: 3 bytes stored, modified := 12:34:56 (2 s) of the operation's clock, clock unchanged -/
 example :
     ((run (C14ex.dirtyFile.write [7, 8, 9]) tickDev).1.toOption.map fun r =>
         (r.1, r.2.entry.map fun e => (e.data.modified, e.data.created, e.dirty))) =
       some (3, some (⟨⟨2020, 2, 2⟩, ⟨12, 34, 56, 0⟩⟩, ⟨⟨1980, 0, 0⟩, ⟨0, 0, 0, 0⟩⟩, true)) ∧
-    (run (C14ex.dirtyFile.write [7, 8, 9]) tickDev).2.clock = 45297789 + 2010 := by
+    (run (C14ex.dirtyFile.write [7, 8, 9]) tickDev).2.clock = 45297789 := by
   decide +kernel
 
 /-! ## (3) a read stamps accessed only under the option -/
 
-/-- **`read_stamps_accessed`** — a successful `File::read`:
-    * with `update_accessed_date` off the editor is unchanged and the clock is not read;
-    * in general, if the editor changed at all then the option is on, data was returned, the clock was read exactly
-      once, and the new editor is the old one after `set_accessed (date of d.clock)`: its record differs from the
-      old one in no field other than `access_date`, `accessed()` returns the clock's date, created / modified /
-      position are as before. -/
+/-- **`read_stamps_accessed`** — a successful `File::read` never changes the clock, and
+    * with `update_accessed_date` off the editor is unchanged;
+    * in general, if the editor changed at all then the option is on, data was returned, and the new editor is the old
+      one after `set_accessed (date of the operation's clock value d.clock)`: its record differs from the old one in
+      no field other than `access_date`, `accessed()` returns the clock's date, created / modified / position are as
+      before. -/
 theorem read_stamps_accessed (f : FileH) (n : Nat) (d : Dev) {bs : List Nat} {f' : FileH} {d' : Dev}
     (hr : run (f.read n) d = (.ok (bs, f'), d')) :
-    (d.fs.accDate = false → f'.entry = f.entry ∧ SameClock d d') ∧
-    ((f'.entry = f.entry ∧ SameClock d d') ∨
-     (d.fs.accDate = true ∧ bs ≠ [] ∧ d'.clock = (tickOnce d).clock ∧ d'.tick = d.tick ∧
+    (d'.clock = d.clock ∧ d'.tick = d.tick) ∧
+    (d.fs.accDate = false → f'.entry = f.entry) ∧
+    (f'.entry = f.entry ∨
+     (d.fs.accDate = true ∧ bs ≠ [] ∧
       ∃ e e', f.entry = some e ∧ f'.entry = some e' ∧ e' = e.setAccessed (clockDate d.clock) ∧
         e'.data = { e.data with accessDate := e'.data.accessDate } ∧
         e'.data.accessed = clockDate d.clock ∧
         e'.data.created = e.data.created ∧ e'.data.modified = e.data.modified ∧ e'.pos = e.pos)) := by
-  have h := read_stamps f n d hr
-  refine ⟨fun hoff => ?_, ?_⟩
+  obtain ⟨hclk, h⟩ := read_stamps f n d hr
+  refine ⟨hclk, fun hoff => ?_, ?_⟩
   · rcases h with h | ⟨hon, _⟩
     · exact h
     · rw [hoff] at hon; cases hon
-  · rcases h with h | ⟨hon, hbs, e, he, he', hc, ht⟩
+  · rcases h with h | ⟨hon, hbs, e, he, he'⟩
     · exact Or.inl h
     · have hrd := DirEntryEditor.setAccessed_reads e (clockDate d.clock) (clockDate_inRange _)
-      exact Or.inr ⟨hon, hbs, hc, ht, e, _, he, he', rfl, DirEntryEditor.setAccessed_data e _, hrd.1, hrd.2.1,
+      exact Or.inr ⟨hon, hbs, e, _, he, he', rfl, DirEntryEditor.setAccessed_data e _, hrd.1, hrd.2.1,
         hrd.2.2.1, hrd.2.2.2⟩
 
 /-- a 5-byte file at cluster 2, clean entry -/
@@ -117,11 +162,11 @@ def dataFile : FileH :=
     entry := some { data := { DirFileEntryData.new (List.replicate 11 65) 0x20 with size := 5 }, pos := 1056,
                     dirty := false } }
 
-/-- option on: 3 bytes read, accessed := the clock's date, latch set, one tick; option off: editor and clock unchanged -/
+/-- option on: 3 bytes read, accessed := the clock's date, latch set; option off: editor unchanged; clock unchanged -/
 example :
     ((run (dataFile.read 3) { tickDev with fs := { tickDev.fs with accDate := true } }).1.toOption.map fun r =>
         (r.1.length, r.2.entry.map fun e => (e.data.accessed, e.dirty))) = some (3, some (⟨2020, 2, 2⟩, true)) ∧
-    (run (dataFile.read 3) { tickDev with fs := { tickDev.fs with accDate := true } }).2.clock = 45297789 + 2010 ∧
+    (run (dataFile.read 3) { tickDev with fs := { tickDev.fs with accDate := true } }).2.clock = 45297789 ∧
     ((run (dataFile.read 3) tickDev).1.toOption.map fun r => (r.1.length, decide (r.2.entry = dataFile.entry))) =
       some (3, true) ∧
     (run (dataFile.read 3) tickDev).2.clock = 45297789 := by
@@ -131,7 +176,7 @@ example :
 
 /-- `File::flush` on a handle whose editor is `ed` (32-byte record): the editor ends up clean; if it was dirty the
     record is written at its position (tiled by the write records just before the closing device flush), if it was
-    clean nothing but the device flush happens; the clock is not read. -/
+    clean nothing but the device flush happens; the clock is unchanged. -/
 theorem flush_with_entry (f1 : FileH) (ed : DirEntryEditor) (h1 : f1.entry = some ed)
     (hlen : ed.data.serialize.length = 32) (d : Dev) {f' : FileH} {d' : Dev}
     (hr : run f1.flush d = (.ok f', d')) :
@@ -142,7 +187,7 @@ theorem flush_with_entry (f1 : FileH) (ed : DirEntryEditor) (h1 : f1.entry = som
     SameClock d d' := by
   obtain ⟨_, _, hd, hc⟩ := flush_persists f1 d hr
   have htake : ed.data.serialize.take 32 = ed.data.serialize := List.take_of_length_le (by omega)
-  refine ⟨?_, fun hdirty => ?_, fun hclean => ?_, NoClock.out (FileH.flush_noClock f1) hr⟩
+  refine ⟨?_, fun hdirty => ?_, fun hclean => ?_, run_sameClock hr⟩
   · cases hdd : ed.dirty with
     | true => rw [(hd ed h1 hdd).1]
     | false =>
@@ -295,7 +340,7 @@ def cleanFile : FileH :=
     entry := some { data := sampleEntry, pos := 1056, dirty := false } }
 
 /-- `set_created(2021-03-04 05:06:07.089)` + flush on `tickDev`: succeeds, 12 chunk writes from offset 1056 then the
-    device flush, the bytes at 1069.. are hi-res 108, time 0x28C3, date 0x5264, and the clock is not read -/
+    device flush, the bytes at 1069.. are hi-res 108, time 0x28C3, date 0x5264, and the clock is unchanged -/
 example :
     resErr (run (cleanFile.setCreated ⟨⟨2021, 3, 4⟩, ⟨5, 6, 7, 89⟩⟩).flush tickDev).1 = none ∧
     (run (cleanFile.setCreated ⟨⟨2021, 3, 4⟩, ⟨5, 6, 7, 89⟩⟩).flush tickDev).2.log.length = 13 ∧
